@@ -86,6 +86,38 @@ def fill_model(e, shape, concrete=None):
     return ms
 
 
+def random_shape(rnd, tags=True, max_w=3):
+    """a structurally valid random model shape (unique n-grams of length <= 2*window, tag n-gram positions within the window)"""
+    cw = rnd.randint(1, max_w); tw = rnd.randint(1, min(max_w, 2))
+    calpha = ['a', 'b', 'あ', 'é', '𠀋', '1']
+    talpha = 'DRHTKO'
+    sh = {'cw': cw, 'tw': tw}
+
+    def ngrams(alpha, maxlen, k):
+        out = []
+        for _ in range(k):
+            g = ''.join(rnd.choice(alpha) for _ in range(rnd.randint(1, maxlen)))
+            if g not in out:
+                out.append(g)
+        return out
+    sh['char'] = ngrams(calpha, min(2 * cw, 3), rnd.randint(0, 3))
+    sh['type'] = ngrams(talpha, min(2 * tw, 2), rnd.randint(0, 2))
+    sh['dict'] = ngrams(calpha, 3, rnd.randint(0, 2))
+    if tags and rnd.random() < 0.7:
+        tms = []
+        toks = ngrams(calpha, 2, rnd.randint(1, 2))
+        for tk in toks:
+            cands = [[('T%d%d' % (ci, k)) for k in range(rnd.randint(0, 3))] for ci in range(rnd.randint(1, 2))]
+            cn = [(g, sorted(rnd.sample(range(0, cw + 1), rnd.randint(1, min(2, cw + 1))))) for g in ngrams(calpha, 2, rnd.randint(0, 2))]
+            tn = [(g, sorted(rnd.sample(range(0, tw + 1), rnd.randint(1, min(2, tw + 1))))) for g in ngrams(talpha, 2, rnd.randint(0, 1))]
+            tms.append({'token': tk, 'cands': cands, 'char': cn, 'type': tn})
+        sh['tags'] = tms
+    for k in ('char', 'type', 'dict'):
+        if not sh[k]:
+            del sh[k]
+    return sh
+
+
 def vec_i32(ws):
     return Seq(list(ws), elt='i32')
 
